@@ -110,12 +110,31 @@ fn exec(op: &str, args: &[Sexp]) -> Ans {
 			if !root_fits(&v) { return Ans::out_of_domain(); }
 			let Some(b) = write_class(&c) else { return Ans::fail("write-panics") };
 			match read_class(&b) {
-				Ok(Some((c2, rest))) => if c2 == c && rest == 0 { Ans::pass() } else { Ans::fail("value-differs") },
+				// compared as the harness' generic values (not with the crate's own `PartialEq`)
+				Ok(Some((c2, rest))) => if to_val_ClassFile(&c2) == v && rest == 0 { Ans::pass() } else { Ans::fail("value-differs") },
 				Ok(None) => Ans::fail("read-err"),
 				Err(()) => Ans::fail("read-panics"),
 			}
 		}
 		("oracle-rt-bytes-full", [b]) => { let b = tr!(b.as_bytes()); rt_bytes_oracle(&b) }
+		// the request carries the value and its encoding by the harness' own JVMS tables (`fvh::jvmsenc`); the generator only
+		// sends values inside the encoder's domain: what is written for the value is exactly that encoding
+		("oracle-write-is-jvms", [v, b]) => {
+			let (_, c) = class!(v);
+			let b = tr!(b.as_bytes());
+			match write_class(&c) { Some(b2) => if b2 == b { Ans::pass() } else { Ans::fail("bytes-differ") }, None => Ans::fail("write-panics") }
+		}
+		// ... and (sent when the pool names every attribute): reading that encoding gives the value back and consumes it all;
+		// values are compared as the harness' generic values, not with the crate's `PartialEq`
+		("oracle-read-jvms", [v, b]) => {
+			let (v, _) = class!(v);
+			let b = tr!(b.as_bytes());
+			match read_class(&b) {
+				Ok(Some((c2, rest))) => if to_val_ClassFile(&c2) == v && rest == 0 { Ans::pass() } else { Ans::fail("value-differs") },
+				Ok(None) => Ans::fail("read-err"),
+				Err(()) => Ans::fail("read-panics"),
+			}
+		}
 		("oracle-jvms-full", [v]) => { let (v, c) = class!(v); jvms_oracle(&v, &c) }
 		// theorem pool_count: bytes 8-9 of what is written are the JVMS constant_pool_count (as u16)
 		("oracle-pool-count", [v]) => {
@@ -426,6 +445,45 @@ fn mutate(r: &mut Rng, b: &[u8], out: &mut Out) {
 	}
 }
 
+/// reader ops on one byte string (round trip, framing, read, `ConstsAgree`, mutants)
+fn emit_bytes_ops(r: &mut Rng, b: &[u8], out: &mut Out, full: bool) {
+	out.op("oracle-rt-bytes-full", &[hex(b)]);
+	out.op("raw-read", &[hex(b)]);
+	if full {
+		out.op("jvms-frame", &[hex(b)]);
+		out.op("raw-consts-agree", &[hex(b)]);
+		mutate(r, b, out);
+	}
+}
+
+/// Byte inputs that belong to the value `v`.  First the encoding by the harness' own JVMS tables (`fvh::jvmsenc`, bytes
+/// the code under test did not produce) with the two oracles that tie it to the value; then what the implementation
+/// writes for `v`, if that differs from the independent encoding or the value is outside the encoder's domain (a writer
+/// that panics or frames wrongly no longer takes the reader ops away).
+fn emit_bytes_for_value(r: &mut Rng, v: &Val, out: &mut Out, full: bool) {
+	let enc = fvh::jvmsenc::encode_class(v).filter(|e| e.bytes.len() < 20000);
+	if let Some(e) = &enc {
+		out.stats.hit("jvms-enc:in-domain");
+		out.op("oracle-write-is-jvms", &[val_to_sexp(v), hex(&e.bytes)]);
+		if e.names_resolve {
+			out.stats.hit("jvms-enc:pool-names-every-attribute");
+			out.op("oracle-read-jvms", &[val_to_sexp(v), hex(&e.bytes)]);
+		}
+		out.stats.hit(&format!("bytes:{}", match e.bytes.len() { 0..=255 => "<256", 256..=1023 => "<1k", 1024..=4095 => "<4k", _ => ">=4k" }));
+		out.stats.hit(if fvh::jvmsframe::class_file(&e.bytes) { "bytes:well-framed" } else { "bytes:not-in-rt-bytes-domain" });
+		emit_bytes_ops(r, &e.bytes, out, full);
+	} else { out.stats.hit("jvms-enc:out-of-domain"); }
+	match from_val_ClassFile(v).and_then(|c| write_class(&c)) {
+		Some(b) => if enc.as_ref().map_or(true, |e| e.bytes != b) {
+			out.stats.hit(if enc.is_some() { "writer-bytes:differ-from-jvms-encoding" } else { "writer-bytes:value-outside-encoder-domain" });
+			out.op("oracle-rt-bytes-full", &[hex(&b)]);
+			out.op("jvms-frame", &[hex(&b)]);
+			if b.len() < 20000 { out.op("raw-read", &[hex(&b)]); out.op("raw-consts-agree", &[hex(&b)]); if full { mutate(r, &b, out); } }
+		},
+		None => out.stats.hit("class:write-panics"),
+	}
+}
+
 fn gen(r: &mut Rng, tier: Tier, out: &mut Out) {
 	let rounds = if tier == Tier::Thorough { 6000 } else { 260 };
 	let mut hits = std::collections::BTreeMap::new();
@@ -449,21 +507,8 @@ fn gen(r: &mut Rng, tier: Tier, out: &mut Out) {
 		out.stats.hit(if has_wide { "class:pool-with-long-double" } else { "class:pool-without-long-double" });
 		if fit && has_wide { out.stats.hit("class:fits-with-long-double"); }
 		emit_value_ops(out, &v, true);
-		if let Some(c) = from_val_ClassFile(&v) {
-			if let Some(b) = write_class(&c) {
-				out.stats.hit(&format!("bytes:{}", match b.len() { 0..=255 => "<256", 256..=1023 => "<1k", 1024..=4095 => "<4k", _ => ">=4k" }));
-				let framed = fvh::jvmsframe::class_file(&b);
-				out.stats.hit(if framed { "bytes:well-framed" } else { "bytes:not-in-rt-bytes-domain" });
-				if framed && has_wide { out.stats.hit("bytes:well-framed-with-long-double"); }
-				out.op("oracle-rt-bytes-full", &[hex(&b)]);
-				out.op("jvms-frame", &[hex(&b)]);
-				if b.len() < 20000 {
-					out.op("raw-read", &[hex(&b)]);
-					out.op("raw-consts-agree", &[hex(&b)]);
-					mutate(r, &b, out);
-				}
-			} else { out.stats.hit("class:write-panics"); }
-		}
+		if has_wide && fvh::jvmsenc::encode_class(&v).map_or(false, |e| fvh::jvmsframe::class_file(&e.bytes)) { out.stats.hit("bytes:well-framed-with-long-double"); }
+		emit_bytes_for_value(r, &v, out, true);
 		i += 1;
 		// every variant of every enum must have been generated a few times
 		let mut min_hits = u64::MAX;
@@ -480,10 +525,9 @@ fn gen(r: &mut Rng, tier: Tier, out: &mut Out) {
 	{
 		let c = fvh::rawgolden::golden();
 		emit_value_ops(out, &to_val_ClassFile(&c), true);
-		if let Some(b) = write_class(&c) { out.op("raw-read", &[hex(&b)]); out.op("raw-consts-agree", &[hex(&b)]); }
 		// every attribute kind, frame kind, element value kind and pool entry kind at once in front of the JVMS frame walker
-		// (oracle-jvms-full above), and as bytes through the round trip
-		if let Some(b) = write_class(&c) { out.op("oracle-rt-bytes-full", &[hex(&b)]); mutate(r, &b, out); }
+		// (oracle-jvms-full above), and as independently encoded bytes through the reader and the round trip
+		emit_bytes_for_value(r, &to_val_ClassFile(&c), out, true);
 	}
 
 	// hand-made edge cases: empty input, header only, pool count 0 (u16 underflow in `constant_pool_count - 1`)
@@ -537,10 +581,7 @@ fn gen(r: &mut Rng, tier: Tier, out: &mut Out) {
 					out.op("oracle-rt-val", &[s.clone()]);
 					out.op("oracle-jvms-full", &[s.clone()]);
 					out.op("oracle-pool-count", &[s]);
-					if let Some(b) = from_val_ClassFile(&v).and_then(|c| write_class(&c)) {
-						out.op("raw-read", &[hex(&b)]);
-						out.op("oracle-rt-bytes-full", &[hex(&b)]);
-					}
+					emit_bytes_for_value(r, &v, out, false);
 				}
 			}
 		}
